@@ -912,6 +912,12 @@ fn run_hist(a: &Args) {
     let mode = a.str("mode", "c02");
     let maxops = a.u64("maxops", 10) as usize;
     let big = a.u64("big", 0) == 1;
+    // back end: 0 = whatever the CPU detection picks, 1..5 = SSE2, SSSE3, SSE4.1, AVX, AVX2 (hook H1)
+    let level = a.u64("level", 0) as u8;
+    #[cfg(all(cryptocorrosion_verif, not(feature = "no_simd")))]
+    ppv_lite86::x86_64::verif::set_level(level);
+    #[cfg(feature = "no_simd")]
+    let _ = level;
     let mut rng = Rng::new(seed ^ 0xc02 ^ (mode.len() as u64) << 20 ^ if mode == "c11" { 0x1100 } else { 0 });
     let mut cases = Vec::new();
     let mut js = Vec::new();
